@@ -100,11 +100,19 @@ MUTANTS = [
                 _, work_item = self.pending_work_items.popitem()
             except KeyError:
                 break
-            work_item.future.set_exception(bpe)
+            try:
+                work_item.future.set_exception(bpe)
+            except InvalidStateError:
+                # set_exception() fails if the future was cancelled while it
+                # was still queued: nothing to report to a cancelled future.
+                pass
             # Delete references to object. See issue16284
             del work_item
 """, """        for work_item in self.pending_work_items.values():
-            work_item.future.set_exception(bpe)
+            try:
+                work_item.future.set_exception(bpe)
+            except InvalidStateError:
+                pass
             # Delete references to object. See issue16284
             del work_item
         self.pending_work_items.clear()
@@ -112,20 +120,28 @@ MUTANTS = [
     M("own-kill-shutdown-iterates", ["C01", "C06"], ["R-OWN-RESOLVE"],
       (PE, """            while self.pending_work_items:
                 _, work_item = self.pending_work_items.popitem()
-                work_item.future.set_exception(
-                    ShutdownExecutorError(
-                        "The Executor was shutdown with `kill_workers=True` "
-                        "before this job could complete."
+                try:
+                    work_item.future.set_exception(
+                        ShutdownExecutorError(
+                            "The Executor was shutdown with `kill_workers=True` "
+                            "before this job could complete."
+                        )
                     )
-                )
+                except InvalidStateError:
+                    # set_exception() fails if the future was cancelled while
+                    # it was still queued: nothing to report to it.
+                    pass
                 del work_item
 """, """            for work_item in list(self.pending_work_items.values()):
-                work_item.future.set_exception(
-                    ShutdownExecutorError(
-                        "The Executor was shutdown with `kill_workers=True` "
-                        "before this job could complete."
+                try:
+                    work_item.future.set_exception(
+                        ShutdownExecutorError(
+                            "The Executor was shutdown with `kill_workers=True` "
+                            "before this job could complete."
+                        )
                     )
-                )
+                except InvalidStateError:
+                    pass
                 del work_item
             self.pending_work_items.clear()
 """)),
@@ -714,21 +730,26 @@ MUTANTS = [
     M("killpath-pending-not-failed", ["C06", "C01"], ["R-KILL-PATH", "R-MGR-EXIT", "R-DROP-RESOLVES"],
       (PE, """            while self.pending_work_items:
                 _, work_item = self.pending_work_items.popitem()
-                work_item.future.set_exception(
-                    ShutdownExecutorError(
-                        "The Executor was shutdown with `kill_workers=True` "
-                        "before this job could complete."
+                try:
+                    work_item.future.set_exception(
+                        ShutdownExecutorError(
+                            "The Executor was shutdown with `kill_workers=True` "
+                            "before this job could complete."
+                        )
                     )
-                )
+                except InvalidStateError:
+                    # set_exception() fails if the future was cancelled while
+                    # it was still queued: nothing to report to it.
+                    pass
                 del work_item
 """, """            self.pending_work_items.clear()
 """)),
     M("killpath-wrong-exception", ["C06"], ["R-KILL-PATH"],
-      (PE, """                work_item.future.set_exception(
-                    ShutdownExecutorError(
-                        "The Executor was shutdown with `kill_workers=True` \"""", """                work_item.future.set_exception(
-                    RuntimeError(
-                        "The Executor was shutdown with `kill_workers=True` \"""")),
+      (PE, """                    work_item.future.set_exception(
+                        ShutdownExecutorError(
+                            "The Executor was shutdown with `kill_workers=True` \"""", """                    work_item.future.set_exception(
+                        RuntimeError(
+                            "The Executor was shutdown with `kill_workers=True` \"""")),
     # ------------------------------------------------------------- R-SINGLETON
     M("singleton-read-outside-lock", ["C09"], ["R-SINGLETON"],
       (RE, """        with _executor_lock:
@@ -1585,6 +1606,21 @@ _resource_tracker""")),
         else:
             with self._wlock:
                 self._writer.send_bytes(dumps(obj, reducers=self._reducers))""")),
+
+    # ------------------------------------------------------------ R-CANCEL-SAFE
+    M("cancel-safe-terminate-broken-unguarded", ["C01", "C02"], ["R-CANCEL-SAFE"],
+      (PE, """            try:
+                work_item.future.set_exception(bpe)
+            except InvalidStateError:
+                # set_exception() fails if the future was cancelled while it
+                # was still queued: nothing to report to a cancelled future.
+                pass""", """            work_item.future.set_exception(bpe)""")),
+    M("cancel-safe-kill-path-narrow-handler", ["C06", "C01"], ["R-CANCEL-SAFE"],
+      (PE, """                except InvalidStateError:
+                    # set_exception() fails if the future was cancelled while
+                    # it was still queued: nothing to report to it.
+                    pass""", """                except KeyError:
+                    pass""")),
 
 ]
 
